@@ -6,7 +6,7 @@ import ast
 from sa import flow
 from sa.model import AnalysisError, dotted, unparse
 from sa.rules import rule
-from sa.rules.util import is_self_attr, iter_body_nodes, own_methods
+from sa.rules.util import is_self_attr, iter_body_nodes, own_methods, qual
 
 
 @rule(
@@ -116,3 +116,39 @@ def r07b(ctx):
             ctx.bad(cid, bmod.loc(regs[k][0]), f"registration for {k} returns {regs[k][1]}, not {v}: the lazily reported container type differs from the computed one")
         else:
             ctx.ok(cid, bmod.loc(regs[k][0]), v)
+
+
+# ---------------------------------------------------------------------------------------------
+# R07e
+# ---------------------------------------------------------------------------------------------
+
+
+@rule(
+    "R07e",
+    ["C07"],
+    """PLACEHOLDER LABELS DO NOT LEAVE THE LOWERING THAT INTRODUCED THEM: a lowering that needs a label for an unnamed Series / Index
+    (`name or "__series__"`, `name or "__index__"`) to build a temporary frame must translate the placeholder back before it returns:
+    the same function compares against the placeholder (`== "__series__"`) on the way out. Otherwise the computed result - and the
+    optimized plan - carry the internal label while the un-optimized collection declares the user's name:
+    df.x.rename(None).drop_duplicates().compute().name was '__series__'.""",
+)
+def r07e(ctx):
+    import re as _re
+
+    model = ctx.model
+    n = 0
+    for mod, cls, fn in model.all_functions():
+        intro = {}
+        for x in ast.walk(fn):
+            if isinstance(x, ast.BoolOp) and isinstance(x.op, ast.Or) and isinstance(x.values[-1], ast.Constant) and isinstance(x.values[-1].value, str) and _re.fullmatch(r"__\w+__", x.values[-1].value):
+                intro.setdefault(x.values[-1].value, x)
+        for ph, node in intro.items():
+            n += 1
+            fq = qual(cls, fn) if cls is not None else f"{mod.name.split('.', 1)[-1]}.{fn.name}"
+            undo = [c for c in ast.walk(fn) if isinstance(c, ast.Compare) and isinstance(c.ops[0], ast.Eq) and any(isinstance(y, ast.Constant) and y.value == ph for y in c.comparators + [c.left])]
+            cid = f"{fq}:placeholder:{ph}"
+            if undo:
+                ctx.ok(cid, mod.loc(node), f"the placeholder {ph!r} is tested for and translated back in the same function")
+            else:
+                ctx.bad(cid, mod.loc(node), f"`{unparse(node)}` labels an unnamed input with the internal placeholder {ph!r}, and nothing in {fn.name} translates it back: the computed result and the optimized plan are named {ph!r} although the collection declared the user's (missing / falsy) name - the placeholder leaks into to_frame / reset_index / concat / to_parquet column labels")
+    ctx.floor("placeholder labels introduced by lowerings", n, 2)
